@@ -471,7 +471,11 @@ public:
 
     try
     {
-      writeLogEntry('X', key, {}, toEpochMs(when));
+      // Replay rejects a non-positive epoch-ms expiry as corrupt, which would
+      // silently drop this record and bring the key back after a restart. Any
+      // deadline at or before 1 ms past the epoch is in the past for every later
+      // load, so it is persisted as 1 ms.
+      writeLogEntry('X', key, {}, std::max<std::int64_t>(toEpochMs(when), 1));
     }
     catch (const std::exception &e)
     {
